@@ -114,7 +114,12 @@ func (m *C14) OnCall(e *sim.Env, c *sim.Call) {
 			eff = latest // baseapp injects the last committed height
 		}
 		if eff == 0 {
-			return // nothing committed yet
+			// nothing is committed yet (between InitChain and the first Commit): there is no committed value to return
+			e.Count("c14.store_queries_before_first_commit")
+			if c.ResQuery.Code == 0 && len(c.ResQuery.Value) != 0 {
+				e.Violate("C14", "value-before-first-commit", fmt.Sprintf("store query %s/%x before the first Commit returned %d bytes (uncommitted genesis / block-1 writes)", store, c.QReq.Data, len(c.ResQuery.Value)), c)
+			}
+			return
 		}
 		class := "retained"
 		switch {
